@@ -164,6 +164,9 @@ func runAttempt(s *gobinlog.Streamer, m *simMaster, h *hist, mapper *tblMapper, 
 			case <-release:
 			case <-time.After(1500 * time.Millisecond):
 			}
+			// a consumer does not notice the stop at once: it is still inside the call for a while after the stop was
+			// issued - Stream must wait for it ("the handler is only ever called from within Stream")
+			time.Sleep(120 * time.Millisecond)
 		}
 		if o.scribble {
 			scribbleTx(t)
@@ -223,6 +226,13 @@ func runAttempt(s *gobinlog.Streamer, m *simMaster, h *hist, mapper *tblMapper, 
 	select {
 	case err := <-done:
 		atomic.StoreInt32(&returned, 1)
+		if atomic.LoadInt32(&inHandler) > 0 {
+			// Stream returned while a handler call was still in progress; let that call finish before its results are read
+			for w := 0; w < 2000 && atomic.LoadInt32(&inHandler) > 0; w++ {
+				time.Sleep(time.Millisecond)
+			}
+			res.afterReturn = true
+		}
 		res.streamDur = time.Since(t0)
 		if err != nil && strings.HasPrefix(err.Error(), "PANIC in Stream") {
 			res.streamRet = "panic:" + err.Error()
